@@ -78,20 +78,24 @@ theorem repr_raises_never_differs (f : Flags) (want out : Str) (unm : List Str) 
     unfold checkGotVsWant at h
     simp only at h
     split at h <;> (try split at h) <;> simp at h
-  generalize unm.reverse = us
-  induction us generalizing out with
-  | nil =>
-    simp only [C02.candidates, List.map_cons, List.map_nil]
-    cases h : checkGotVsWant f want out .reprRaises
-    · simp [C02.firstDecisive]
-    · exact absurd h (nd out)
-    · simp [C02.firstDecisive]
-  | cons u us ih =>
-    simp only [C02.candidates, List.map_cons]
-    cases h : checkGotVsWant f want out .reprRaises
-    · simp [C02.firstDecisive]
-    · exact absurd h (nd out)
-    · simp [C02.firstDecisive]
+  -- a non-empty list of verdicts none of which is "differs" does not give "differs"
+  have key : ∀ (l : List GotWant), l ≠ [] → (∀ g ∈ l, g ≠ .differs) → C02.verdictOf l ≠ .differs := by
+    intro l
+    induction l with
+    | nil => intro h; exact absurd rfl h
+    | cons g l _ =>
+      intro _ hall
+      cases g with
+      | ok => simp [C02.verdictOf]
+      | differs => exact absurd rfl (hall _ List.mem_cons_self)
+      | reprError =>
+        simp only [C02.verdictOf]
+        cases C02.verdictOf l <;> simp
+  apply key
+  · cases unm.reverse <;> simp [C02.candidates]
+  · intro g hg
+    obtain ⟨c, _, rfl⟩ := List.mem_map.mp hg
+    exact nd c
 
 theorem repr_raises_recorded (f : Flags) (want out : Str) (unm : List Str) :
     decideExec f false (some want) unm (.ok out .reprRaises) = .ran out .clear ∨
